@@ -18,6 +18,10 @@ GROUPS = {
             ['merge_is_registerwise_max', 'merge_commutative', 'merge_associative', 'merge_idempotent',
              'new_and_clear_are_empty', 'add_element_rho_semantics', 'add_element_is_max_with_singleton',
              'add_element_err_iff_offset_out_of_range'], []),
+    # leaf contracts that stand for repo code Verus cannot read (used as assumptions by the Verus units)
+    'leaf': ('pocket-types', [('leaf_json_escape.rs', 'pocket-types/src/json/json_escape.rs'), ('leaf_kind.rs', 'pocket-types/src/kind.rs'),
+                              ('leaf_event.rs', 'pocket-types/src/event.rs')],
+             ['is_safe_char_contract', 'kind_classification_contract', 'event_id_pubkey_sig_contract'], []),
     # slow direct checks (minutes): thorough tier only
     'hll_slow': ('pocket-types', [('hll8.rs', 'pocket-types/src/hll8.rs')],
             ['add_distributes_over_merge', 'add_element_idempotent_and_order_independent'], []),
